@@ -2080,7 +2080,9 @@ fn bulk_for<T: Cat + Clone + DecodeAll + DecodeLimit>(ctx: &mut Ctx, name: &'sta
 				}
 				let logical: Vec<T> = d2.iter().cloned().collect();
 				if d2.encode() != logical.encode() {
-					ctx.oracle_fail("C07", format!("{}: VecDeque of {} elements split {}+{} over the ring buffer does not encode like its contents", name, n, d2.as_slices().0.len(), d2.as_slices().1.len()));
+					let msg = format!("{}: VecDeque of {} elements split {}+{} over the ring buffer does not encode like its contents", name, n, d2.as_slices().0.len(), d2.as_slices().1.len());
+					ctx.oracle_fail("C07", msg.clone());
+					ctx.oracle_fail("C06", msg);
 				}
 				let mut d3: VecDeque<T> = VecDeque::with_capacity(n + 1);
 				for x in xs.iter().take(n - front) {
@@ -2092,7 +2094,9 @@ fn bulk_for<T: Cat + Clone + DecodeAll + DecodeLimit>(ctx: &mut Ctx, name: &'sta
 				}
 				let logical: Vec<T> = d3.iter().cloned().collect();
 				if d3.encode() != logical.encode() {
-					ctx.oracle_fail("C07", format!("{}: VecDeque of {} elements split {}+{} over the ring buffer does not encode like its contents", name, n - front, d3.as_slices().0.len(), d3.as_slices().1.len()));
+					let msg = format!("{}: VecDeque of {} elements split {}+{} over the ring buffer does not encode like its contents", name, n - front, d3.as_slices().0.len(), d3.as_slices().1.len());
+					ctx.oracle_fail("C07", msg.clone());
+					ctx.oracle_fail("C06", msg);
 				}
 			}
 		}
